@@ -223,8 +223,14 @@ def summaries(fn, max_paths=2048, params_env=None, try_prefixes=False):
                         env2[tt] = v
             return run(rest, conds, env2, eff, k, retk)
         if isinstance(s, ast.AugAssign):
-            cur = subst(ast.Name(s.target.id, ast.Load()), env) if isinstance(
-                s.target, ast.Name) else subst(s.target, env)
+            if isinstance(s.target, ast.Name):
+                cur = subst(ast.Name(s.target.id, ast.Load()), env)
+            else:
+                # the current value of the target: read it as a load, so
+                # that an earlier store on this path is seen
+                rd = acopy(s.target)
+                rd.ctx = ast.Load()
+                cur = subst(rd, env)
             v = ast.BinOp(cur, s.op, subst(s.value, env))
             if isinstance(s.target, ast.Name):
                 env2 = dict(env)
